@@ -2,6 +2,7 @@ package main
 
 import (
 	"fmt"
+	"sync/atomic"
 )
 
 // service-level generation --------------------------------------------------------------------
@@ -210,7 +211,20 @@ func (s *sgen) runCase(id int) bool {
 			} else {
 				tgt = s.g.randObj(0)
 			}
-			if s.r.intn(5) == 0 {
+			bgMu.Lock()
+			nHeld := len(s.w.bgHeld)
+			bgMu.Unlock()
+			pairOK := len(s.w.kit.Mongo.Held()) == 0 && atomic.LoadInt64(&bgParked) == 0 && nHeld == 0
+			pair := s.r.intn(5) == 0
+			if pair && !pairOK {
+				// a fault scenario keeps a background goroutine stopped at the database gate (released by a later step):
+				// the pair would release it; the two patches one after the other instead
+				var tgt2 interface{} = s.g.randObj(0)
+				hung = s.emit(s.w.stepPatch(col, key, tgt))
+				if !hung {
+					hung = s.emit(s.w.stepPatch(col, key, tgt2))
+				}
+			} else if pair {
 				// two overlapping REST patches of one key
 				var tgt2 interface{} = s.g.randObj(0)
 				if m, ok := tgt.(J); ok && s.r.intn(2) == 0 {
